@@ -137,6 +137,20 @@ def run(ctx):
                 cases.append(dict(kind=kind, y=[nd if m else float(v) for v, m in zip(y, miss)], nodata=nd, n=n, **params))
                 cases.append(dict(kind=kind, y=[nd + c if m else float(v + c) for v, m in zip(y, miss)], nodata=nd + c, n=n, **params))
                 plan.append(("offset", len(cases) - 2, len(cases) - 1, dict(c=c, family="offset to zero mean")))
+    # (c) strongly asymmetric envelope on a long noisy series that sits on a large level: the reweighting iteration must run to the same
+    #     fixed point whatever the level (an exit test that looks at the magnitude of the curve stops early on the shifted series)
+    for it in range(100 if ctx.thorough else 40):
+        n = int(rng.integers(60, 201))
+        y = np.clip(np.round(float(rng.integers(-100, 100)) + rng.normal(0, 40, n).cumsum() + rng.normal(0, 60, n)), -400, 400)   # a noisy random walk
+        c = int(rng.choice([-1, 1])) * int(rng.integers(8000, 9501))
+        miss = np.zeros(n, dtype=bool)
+        if it % 2:
+            miss[rng.choice(n, size=n // 10, replace=False)] = True
+        nd0 = -3000.0 if c > 0 else 3000.0
+        params = dict(lam=float(10 ** rng.uniform(-1, [0, 1][it % 2])), p=float([0.95, 0.05, 0.95, 0.9][it % 4]))
+        cases.append(dict(kind="pgu", y=[nd0 if m else float(v) for v, m in zip(y, miss)], nodata=nd0, n=n, **params))
+        cases.append(dict(kind="pgu", y=[nd0 + c if m else float(v + c) for v, m in zip(y, miss)], nodata=nd0 + c, n=n, **params))
+        plan.append(("offset", len(cases) - 2, len(cases) - 1, dict(c=c, family="strong envelope, large level")))
     res, log = core.run_impl("whit_impl.py", dict(kernels=cases), timeout=3000)
     if res is None:
         ctx.violation("implementation run failed", dict(kind="impl-crash", log=log[-3000:]), found_input=False)
